@@ -230,6 +230,11 @@ func implC02(line string) string {
 			vm.Set("newName", goArgs[k%len(goArgs)])
 			return "returns"
 		})
+	case "recur":
+		if len(f) != 4 {
+			return "bad-op"
+		}
+		return implRecur(f)
 	case "seq":
 		b, err := hex.DecodeString(f[1])
 		if err != nil {
@@ -317,6 +322,7 @@ func genC02(c *h.Ctx) {
 			c.Add(fmt.Sprintf("new %s 0 %s", fn, a), "new")
 		}
 	}
+	genRecur(c)
 	// stateful API sequences
 	for i := 0; i < c.N(4000, 150000); i++ {
 		c.Add("seq "+hex.EncodeToString([]byte(genSeq(r.Fork(), fns, 4+r.Intn(10)))), "sequence")
